@@ -44,7 +44,7 @@ if not skip_tests:
     shutil.rmtree(os.path.join(wt, "test", "plt_tmp"), ignore_errors=True)
 for c in checks:
     t0 = time.time()
-    rc, out = sh("bin/check %s --tier %s" % (c, tier), "/verif", 7200)
+    rc, out = sh("bin/check %s --tier %s" % (c, tier), os.environ.get("KV_VERIF_DIR", "/verif"), 7200)
     viol = [l for l in out.split("\n") if l.startswith("VIOLATION")]
     summ = [l for l in out.split("\n") if re.match(r"^C\d+ tier=", l)]
     res["checks"][c] = {"rc": rc, "violation_lines": len(viol), "first": viol[0][:300] if viol else None,
